@@ -165,7 +165,62 @@ def check(case):
                         "scale-attribute-reassigned" if case.get("rescale") is not None else "scale-fixed"]}
 
 
+# ------------------------------------------------------------------ the maps a Manager keeps for its species
+@st.composite
+def manager_route_case(draw):
+    from checks import c10_restraints as c10
+    case = draw(c10.manager_case())
+    case["bad"] = None
+    case["scale"] = draw(st.sampled_from([0.5, 1.0, 0.3, 1.7]))
+    case["change"] = draw(st.sampled_from(["move-end", "rotate-end", "move-start", "positions-end"]))
+    return case
+
+
+def check_manager_route(case):
+    """Manager.calculate_exchange_maps(s), then the overlap of every species is changed IN PLACE (the molecules of its
+    Alignment are moved / rotated / given new coordinates), then calculate_exchange_maps(s) again with the same scale:
+    the maps are those of the molecules as they are now - every mapped atom sits at s times its present distance from
+    its (present) nearest anchor."""
+    from checks import c10_restraints as c10
+    man, specs = c10.build_manager(case)
+    s = case["scale"]
+    lib("maps", man.calculate_exchange_maps, s)
+    rng = np.random.default_rng(case["seed"] + 11)
+    for sp in case["species"]:
+        ali = man.molecule_correspondence[sp["name"]]
+        if case["change"] == "move-end":
+            lib("move", ali.end.move, np.round(rng.uniform(-0.3, 0.3, 3), 3))
+        elif case["change"] == "rotate-end":
+            lib("rotate", ali.end.rotate, gen.random_rotation(rng))
+        elif case["change"] == "move-start":
+            lib("move", ali.start.move, np.round(rng.uniform(-0.3, 0.3, 3), 3))
+        else:
+            ali.end.atoms_positions = positions(ali.end) + rng.normal(0, 0.05, positions(ali.end).shape)
+    lib("maps-again", man.calculate_exchange_maps, s)
+    used = 0
+    for sp in case["species"]:
+        name = sp["name"]
+        ali = man.molecule_correspondence[name]
+        rpos, tpos = positions(ali.start), positions(ali.end)
+        sub = {"ref": {"coords": rpos.tolist(), "edges": specs[(name, "start")]["edges"]}, "tgt": {"coords": tpos.tolist()}}
+        anchors, assign = xc.oracle_assignment(sub)
+        M = ali.exchange_map
+        out = positions(lib("map-apply", M, ali.start))
+        chosen = xc.check_equivalences(M, assign)
+        for t, a in enumerate(chosen):
+            want = s * float(np.linalg.norm(tpos[t] - rpos[a]))
+            got = float(np.linalg.norm(out[t] - rpos[a]))
+            if not abs(got - want) <= 1e-9 * max(1.0, want):
+                raise PropertyViolation("anchor-distance", "Manager route (%s, then the same scale again), species %s: atom "
+                                        "%d is %.12g from its anchor, s x present distance = %.12g"
+                                        % (case["change"], name, t, got, want), cls="anchor-distance:manager-route")
+        used += len(set(chosen))
+    return {"nontrivial": used >= 2, "classes": ["change:" + case["change"], "s=1" if s == 1.0 else "s!=1"],
+            "sample": {"species": case["species"], "change": case["change"], "scale": s}}
+
+
 SUBCHECKS = [
+    Sub("manager-route", check_manager_route, strategy=lambda tier: manager_route_case(), quick=400, thorough=15000),
     Sub("deform", check, strategy=lambda tier: case_strategy(),
         quick=3000, thorough=150000, min_share={"anchors-used:2+": 0.3, "conf:collinear-anchor": 0.08}),
 ]
